@@ -73,7 +73,7 @@ structure GExec {σ : Type} (T : Tables σ) (B : ℕ) (wide : Bool) (x : ℕ) (r
 
 theorem piGourdon_total {σ : Type} (T : Tables σ) {B : ℕ} (hT : TablesOK T B) (pi : ℕ → ℕ) (wide : Bool) (x : ℤ)
     (hx : InType wide x) (hsmall : x < 2 ∨ 2401 ≤ x) (threads : ℤ) (isPrint : Bool) (r : GRun)
-    (hpi : ∀ n : ℕ, (n : ℤ) < x → pi n = π n) (hex : 2 ≤ x → GExec T B wide x.toNat r) :
+    (hpi : ∀ n : ℕ, (n : ℤ) < x → n < 2 ^ 63 → pi n = π n) (hex : 2 ≤ x → GExec T B wide x.toNat r) :
     piGourdon T pi wide x threads isPrint r = .ok (π x.toNat : ℤ) ∨
       piGourdon T pi wide x threads isPrint r = .error (.hard .badRun) := by
   by_cases h2 : x < 2
@@ -86,16 +86,31 @@ theorem piGourdon_total {σ : Type} (T : Tables σ) {B : ℕ} (hT : TablesOK T B
     have hex' := hex (by omega)
     rw [Int.toNat_natCast] at hex' ⊢
     obtain ⟨ay, az, ha⟩ := hex'.adm.env
-    have hpi' : ∀ m, m < n → pi m = π m := fun m hm => hpi m (by exact_mod_cast hm)
+    -- `B_thread` calls `pi_noprint` only at arguments `≤ x / (y + 1) ≤ x / y ≤ INT64_MAX`
+    have hpiB : ∀ o : GOut, o = gOutPure wide n threads r.fo → GourdonRange n threads o →
+        ∀ m, m ≤ n / ((gY n r.fo.v).toNat + 1) → m < n → pi m = π m := by
+      intro o ho hr m hm hmn
+      refine hpi m (by exact_mod_cast hmn) ?_
+      obtain ⟨_, _, g3, _, _, _, _, _, _, _, _, _, _, g14, g15, _⟩ := hr
+      rw [ho] at g3 g14 g15
+      simp only [gOutPure] at g3 g14 g15
+      have hy0 : 0 ≤ gY n r.fo.v := by omega
+      have hyv : (((gY n r.fo.v).toNat : ℕ) : ℤ) = gY n r.fo.v := Int.toNat_of_nonneg hy0
+      have h1 : n / ((gY n r.fo.v).toNat + 1) ≤ n / (gY n r.fo.v).toNat :=
+        Nat.div_le_div_left (Nat.le_succ _) (by omega)
+      have h2 : ((n / (gY n r.fo.v).toNat : ℕ) : ℤ) ≤ i64Max := by
+        rw [Int.natCast_ediv, hyv]; exact g14
+      unfold i64Max at h2
+      omega
     cases wide
     · have hx63 : n < 2 ^ 63 := by unfold InType at hx; simp at hx; exact_mod_cast hx
       obtain ⟨p1, p2⟩ := gourdon64_accept n threads ay az r.fo (by omega) hx63 ha
-      exact piGourdon_core T hT pi false n threads isPrint r hn (lt_trans hx63 (by norm_num)) (fun _ => hx63) hpi'
-        p1 p2 hex'.yB hex'.reach hex'.adm
+      exact piGourdon_core T hT pi false n threads isPrint r hn (lt_trans hx63 (by norm_num)) (fun _ => hx63)
+        (hpiB _ rfl p2) p1 p2 hex'.yB hex'.reach hex'.adm
     · have hx127 : n < 2 ^ 127 := by unfold InType at hx; simp at hx; exact_mod_cast hx
       obtain ⟨p1, p2⟩ := gourdon128_accept n threads ay az r.fo (by omega) hx127 ha (hex'.accept rfl)
-      exact piGourdon_core T hT pi true n threads isPrint r hn hx127 (fun h => absurd h (by simp)) hpi'
-        p1 p2 hex'.yB hex'.reach hex'.adm
+      exact piGourdon_core T hT pi true n threads isPrint r hn hx127 (fun h => absurd h (by simp))
+        (hpiB _ rfl p2) p1 p2 hex'.yB hex'.reach hex'.adm
 
 theorem piGourdon_rejects {σ : Type} (T : Tables σ) (pi : ℕ → ℕ) (x : ℕ) (hx2 : 2 ≤ x) (hx : x < 2 ^ 127) (threads : ℤ)
     (isPrint : Bool) (r : GRun) (ay az : ℚ) (henv : GourdonEnv x ay az r.fo) (h : r.fo.maxX < (x : ℤ)) :
@@ -156,12 +171,12 @@ theorem piApi64_step {σ : Type} (T : Tables σ) {B : ℕ} (hT : TablesOK T B) (
     rfl
   · have hex' := hex (by omega)
     have l2 : meisselMax = 100000000 := rfl
-    exact piGourdon_total T hT pi false x (by unfold InType; simpa using hx) (Or.inr (by omega)) threads isPrint r.gourdon hpi
-      (fun _ => hex'.gourdon (by omega))
+    exact piGourdon_total T hT pi false x (by unfold InType; simpa using hx) (Or.inr (by omega)) threads isPrint r.gourdon
+      (fun n hn _ => hpi n hn) (fun _ => hex'.gourdon (by omega))
 
 theorem piApi128_step {σ : Type} (T : Tables σ) {B : ℕ} (hT : TablesOK T B) (phi : ℕ → ℕ → ℕ) (pi : ℕ → ℕ) (x : ℤ)
     (hx : x < 2 ^ 127) (threads : ℤ) (isPrint : Bool) (r : ApiRun)
-    (hphi : PhiContract phi x.toNat) (hpi : ∀ n : ℕ, (n : ℤ) < x → pi n = π n)
+    (hphi : PhiContract phi x.toNat) (hpi : ∀ n : ℕ, (n : ℤ) < x → n < 2 ^ 63 → pi n = π n)
     (hex : (maxCached : ℤ) < x → ApiExec T B (decide ((PiApi.int64Max : ℤ) < x)) x.toNat r) :
     piApi128 T phi pi x threads isPrint r = .ok (π x.toNat : ℤ) ∨
       piApi128 T phi pi x threads isPrint r = .error (.hard .badRun) := by
@@ -174,7 +189,7 @@ theorem piApi128_step {σ : Type} (T : Tables σ) {B : ℕ} (hT : TablesOK T B) 
     rw [this]; rfl
   · have hd : decide ((PiApi.int64Max : ℤ) < x) = false := by simp; omega
     rw [hd] at hex
-    exact piApi64_step T hT phi pi x (by omega) threads isPrint r hphi hpi hex
+    exact piApi64_step T hT phi pi x (by omega) threads isPrint r hphi (fun n hn => hpi n hn (by omega)) hex
   · have hd : decide ((PiApi.int64Max : ℤ) < x) = true := by simp; omega
     rw [hd] at hex
     have hex' := hex (by omega)
